@@ -19,8 +19,9 @@ Tokens
   raises            `.` or `,`-separated callback numbers that raise when invoked
 
 Lines (one output line each)
-  match <rule> <msg>            -> skip | err | call | addfailed          (code model, current tables)
-  spec <rule> <msg>             -> 0 | 1                                  (Spec.specMatches)
+  match <rule> <msg>            -> skip | err | call | addfailed          (code model, current tables; Rule.matchGen:
+                                                                           with or without the arg0namespace clause, as probed)
+  spec <rule> <msg>             -> 0 | 1                                  (Spec.specMatchesFull: all keys, arg0namespace included)
   mkrule <rule>                 -> simple=<k>:<v>;... attrs=<k>:<v>;...   (stored Rule)
   reset                         -> ok                                     (fresh MessageRouter and client)
   add <cb> <rule>               -> id <n> | addfailed
@@ -262,7 +263,7 @@ def step (st : St) (line : String) : St × String :=
       match msg? rest with
       | some (m, []) =>
         match mkRule T a with
-        | .ok r => (st, showOutcome (r.match m))
+        | .ok r => (st, showOutcome (r.matchGen m))
         | .error _ => (st, "addfailed")
       | _ => (st, "badinput")
     | none => (st, "badinput")
@@ -270,7 +271,7 @@ def step (st : St) (line : String) : St × String :=
     match rule? rest with
     | some (a, rest) =>
       match msg? rest with
-      | some (m, []) => (st, if Spec.specMatches a m then "1" else "0")
+      | some (m, []) => (st, if Spec.specMatchesFull a m then "1" else "0")
       | _ => (st, "badinput")
     | none => (st, "badinput")
   | "mkrule" :: rest =>
